@@ -7,41 +7,42 @@ import Driver.Kfold
 namespace Noir.Driver.Krmap
 open Noir Noir.Driver Noir.Driver.Fold Noir.Driver.Kfold
 
-/-- **C07 oracle for keyed rich_map state** (spec side): within every iteration the j-th output
-    of key `k` is the sequential fold of the first j values of `k` *of that iteration* (state does
-    not leak between iterations), every element is mapped in place.
-    A mismatch that is exactly "the fold continued from the state left by the earlier iterations"
-    is classified `known:richmap-state-survives-far`. -/
+/-- **C07 oracle for keyed rich_map state** (spec side). State is kept PER KEY: for every key,
+    the outputs carrying that key, in order, are exactly what one sequential run of the stateful
+    function (a running fold started from `init`) produces over that key's sub-stream of the
+    WHOLE stream — the state survives `FlushAndRestart` (documented behaviour of `RichMap`) — with
+    the element kind and timestamp kept. Hence keys never influence each other and nothing is
+    lost, duplicated or reordered per key. Control elements pass through, every element is mapped
+    in place, grammar and watermark safety are preserved. -/
 def oracle (init : Val) (f : Val → Val → Val) (es : List (Elem Val)) (impl : List (Nat × Elem Val)) :
     Option String :=
   let outEs := impl.map (·.2)
-  -- expected under the property (reset per iteration) and under "never reset"
-  let rec go (es : List (Elem Val)) (perIter all : List (Val × Val)) (accP accA : List (Elem Val)) :
-      List (Elem Val) × List (Elem Val) :=
-    match es with
-    | [] => (accP.reverse, accA.reverse)
-    | e :: rest =>
-      let upd (st : List (Val × Val)) (k v : Val) : List (Val × Val) × Val :=
-        let cur := ((st.find? (·.1 == k)).map (·.2)).getD init
-        let nv := f cur v
-        ((k, nv) :: st.filter (fun p => !(p.1 == k)), nv)
-      match e with
-      | .item (.tup [k, v]) =>
-        let (p', pv) := upd perIter k v
-        let (a', av) := upd all k v
-        go rest p' a' (.item (.tup [k, pv]) :: accP) (.item (.tup [k, av]) :: accA)
-      | .ts (.tup [k, v]) t =>
-        let (p', pv) := upd perIter k v
-        let (a', av) := upd all k v
-        go rest p' a' (.ts (.tup [k, pv]) t :: accP) (.ts (.tup [k, av]) t :: accA)
-      | .far => go rest [] all (e :: accP) (e :: accA)
-      | e => go rest perIter all (e :: accP) (e :: accA)
-  let (expP, expA) := go es [] [] [] []
-  if outEs == expP then
-    firstFail [check (impl.map (·.1) == List.range impl.length) "an output is not produced in place"]
-  else if outEs == expA then
-    some "known:richmap-state-survives-far per-key state of an earlier iteration leaks into the next one"
-  else some s!"outputs {outEs.map elemToStr} expected {expP.map elemToStr}"
+  -- (key, payload, timestamp?) of the data elements of a trace, in order
+  let dataOf (l : List (Elem Val)) : List (Val × Val × Option Int) := l.filterMap fun
+    | .item (.tup [k, v]) => some (k, v, none)
+    | .ts (.tup [k, v]) t => some (k, v, some t)
+    | _ => none
+  let inD := dataOf es
+  let outD := dataOf outEs
+  let keys := (inD.map (·.1)).eraseDups
+  -- one sequential run of the running fold over one key's sub-stream
+  let seqRun (l : List (Val × Val × Option Int)) : List (Val × Option Int) :=
+    (l.foldl (fun (acc : Val × List (Val × Option Int)) x =>
+      let nv := f acc.1 x.2.1
+      (nv, (nv, x.2.2) :: acc.2)) (init, [])).2.reverse
+  let perKey := keys.map fun k =>
+    let expected := seqRun (inD.filter (·.1 == k))
+    let got := (outD.filter (·.1 == k)).map fun x => (x.2.1, x.2.2)
+    check (got == expected)
+      s!"key {k}: outputs {got.map fun x => (x.1, x.2)} differ from the sequential run over its sub-stream {expected.map fun x => (x.1, x.2)}"
+  let isCtl (e : Elem Val) : Bool := !e.isData
+  firstFail (perKey ++ [
+    check (outD.length == (outEs.filter Elem.isData).length) "an output is not a (key,value) pair",
+    check (outD.all fun x => keys.contains x.1) "output for a key that never occurred",
+    check (outEs.filter isCtl == es.filter isCtl) "control elements are not passed through unchanged",
+    check (impl.map (·.1) == List.range impl.length) "an element is not mapped in place",
+    check (grammarOk outEs) "output violates the stream grammar",
+    check (!wmSafeOk es || wmSafeOk outEs) "output violates watermark safety"])
 
 def handle (c : Case) : Verdict :=
   match c.header with
@@ -60,7 +61,7 @@ def handle (c : Case) : Verdict :=
           if impl.length ≠ c.implOut.length then some s!"unparsable implementation output {c.implOut}"
           else if !wellFormed then none
           else oracle init f es impl
-        -- a key recurring in a later iteration is what makes the reset observable
+        -- a key recurring in a later iteration: the per-key state spans iterations
         let its := iterations es
         let keysOf (it : Iter) := (it.body.filterMap Elem.value).filterMap fun v => (unpair v).map (·.1.s)
         let recurs := (List.range its.length).any fun i =>
